@@ -23,7 +23,7 @@ type c01Txn struct {
 
 type c01Case struct {
 	Naming  string   `json:"naming"`
-	Policy  string   `json:"policy"` // "store-default" | "discard-default"
+	Policy  string   `json:"policy"` // "store-default" | "discard-default" | "discard-default+inert-discard-list"
 	Backend string   `json:"backend"`
 	Txns    []c01Txn `json:"txns"`
 }
@@ -31,10 +31,17 @@ type c01Case struct {
 func c01Spec(cas c01Case) sys.Spec {
 	smtp := sys.DefaultSMTP()
 	smtp.RejectDomains = []string{"rej.test"}
-	if cas.Policy == "store-default" {
+	switch cas.Policy {
+	case "store-default":
 		smtp.DefaultStore = true
 		smtp.DiscardDomains = []string{"drop.test"}
-	} else {
+	case "discard-default+inert-discard-list":
+		// the discard list is consulted only when the default is to store (doc/config.md): here
+		// it is inert, although it names the very domain the store list names
+		smtp.DefaultStore = false
+		smtp.StoreDomains = []string{"keep.test"}
+		smtp.DiscardDomains = []string{"keep.test"}
+	default:
 		smtp.DefaultStore = false
 		smtp.StoreDomains = []string{"keep.test"}
 	}
@@ -191,7 +198,7 @@ func c01Run(c *fw.Ctx) {
 	n := 0
 	for _, be := range []string{"mem", "file"} {
 		for _, naming := range []string{"local", "full", "domain"} {
-			for _, pol := range []string{"store-default", "discard-default"} {
+			for _, pol := range []string{"store-default", "discard-default", "discard-default+inert-discard-list"} {
 				for _, rs := range rcptSeqs {
 					for _, t := range c01Terms {
 						n++
